@@ -165,14 +165,26 @@ static std::string gen(const std::string &prop, uint64_t base, uint64_t idx, boo
     }
     // new API whose only pointer parameter is a PDU of a known format (none on the pinned tree): called on PDUs of that format that the
     // calling task owns (for VSS: on a message it has just encoded), const ones also on the shared PDU
-    auto extrap_for = [&](int t, const char *fmt, int objid, bool shared_target) {
+    auto extrap_for = [&](int t, const char *fmt, int objid, bool shared_target, size_t objsize = 0) {
         if (!bind_nextras_p) return;
         std::vector<unsigned> cand;
-        for (unsigned x = 0; x < bind_nextras_p; x++)
-            if (!strcmp(bind_extras_p[x].fmt, fmt) && (!shared_target || bind_extras_p[x].is_const)) cand.push_back(x);
+        for (unsigned x = 0; x < bind_nextras_p; x++) {
+            const BindExtraP &e = bind_extras_p[x];
+            if (!e.fmt2 && !strcmp(e.fmt, fmt) && (!shared_target || e.is_const)) cand.push_back(x);
+            // two PDUs: the well-formed one in hand is the second (source) argument, the first gets a fresh object large enough for a copy
+            if (e.fmt2 && !strcmp(e.fmt2, fmt) && (!shared_target || e.is_const2)) cand.push_back(x);
+        }
         if (cand.empty() || !r.chance(0.5)) return;
         auto xa = [&] { return (unsigned)(r.coin() ? r.below(4) : r.below(256)); };
-        calllines.push_back(strf("call t=%d fn=extrap a=%u obj=%d b=%u c=%u d=%u", t, cand[r.below(cand.size())], objid, xa(), xa(), xa()));
+        unsigned x = cand[r.below(cand.size())];
+        if (bind_extras_p[x].fmt2) {
+            const BindFormat *df = find_format(bind_extras_p[x].fmt);
+            if (!df) return;
+            int dst = new_obj(t, std::max<size_t>(df->spec_bytes, objsize) + 8);
+            calllines.push_back(strf("call t=%d fn=extrap a=%u obj=%d obj2=%d c=%u d=%u", t, x, dst, objid, xa(), xa()));
+        } else {
+            calllines.push_back(strf("call t=%d fn=extrap a=%u obj=%d b=%u c=%u d=%u", t, x, objid, xa(), xa(), xa()));
+        }
     };
     int ncalls = (int)r.range(10, thorough ? 150 : 60) * ntasks;
     for (int i = 0; i < ncalls; i++) {
@@ -209,7 +221,7 @@ static std::string gen(const std::string &prop, uint64_t base, uint64_t idx, boo
                 if (v.empty()) continue;
                 calllines.push_back(strf("call t=%d fn=get obj=%d fmt=%s f=%s via=%s", t, p.obj, f->name, fl->name, v[r.below(v.size())]));
             }
-            if (bind_nextras_p && strcmp(f->name, "Vss")) extrap_for(t, f->name, p.obj, false);
+            if (bind_nextras_p && strcmp(f->name, "Vss") && strcmp(f->name, "Can") && strcmp(f->name, "CanBrief")) extrap_for(t, f->name, p.obj, false, f->spec_bytes);
         } else if (k < 65) {  // calls with invalid arguments (rejected without effect on the unchanged tree): null PDU, field id out of range, null result
             P &p = pdus[t][r.below(pdus[t].size())];
             static const char *subs[] = {"getfield_max", "setfield_max", "getfield_ff", "setfield_ff", "lget_max", "lset_max", "lget_nullval", "get_nullpdu", "set_nullpdu",
@@ -257,6 +269,7 @@ static std::string gen(const std::string &prop, uint64_t base, uint64_t idx, boo
                     break;
                 }
                 calllines.push_back(strf("call t=%d fn=can_paylen obj=%d", t, pdu));
+                if (bind_nextras_p) extrap_for(t, "Can", pdu, false, 16 + len + pad);
                 if (r.coin()) calllines.push_back(strf("call t=%d fn=can_payoff obj=%d", t, pdu));
             }
         } else if (k < 96) {  // VSS encode (+ pad) + decode
@@ -291,10 +304,10 @@ static std::string gen(const std::string &prop, uint64_t base, uint64_t idx, boo
             calllines.push_back(strf("call t=%d fn=init obj=%d fmt=Vss via=cur", t, msg));
             calllines.push_back(strf("call t=%d fn=vss_reserved obj=%d a=%u b=0x%x", t, msg, (unsigned)(r.coin() ? r.range(2, 3) : r.below(2)), (unsigned)(r.coin() ? r.range(0xC, 0x7F) : r.range(0x8C, 0xFF))));
         } else {  // VSS string arrays
-            int n = (int)r.range(0, 8);
+            int n = (int)(r.chance(0.12) ? r.range(9, 48) : r.range(0, 8));  // (tables with dozens of entries too)
             std::string lens, srcs, dsts;
             size_t total = 0;
-            bool longs = r.chance(0.15);
+            bool longs = n <= 8 && r.chance(0.15);
             for (int s = 0; s < n; s++) {
                 unsigned l = (unsigned)(longs ? r.range(0, 200) : r.range(0, 12));
                 total += 2 + l;
@@ -885,12 +898,19 @@ static uint64_t do_call(const Call &c, bool &skipped) {
         const BindFormat *xf = find_format(x.fmt);
         int xt = w.tasks.cur() ? w.tasks.cur()->id : -1;
         if (!xf || o->size < xf->spec_bytes || (o->shared && !x.is_const) || xt < 0) { skipped = true; return 0; }
+        uint64_t xb = c.b;
+        if (x.fmt2) {
+            Obj *xo2 = obj(c.obj2);
+            const BindFormat *xf2 = find_format(x.fmt2);
+            if (!xo2 || !xf2 || xo2->size < xf2->spec_bytes || (xo2->shared && !x.is_const2) || xo2 == o) { skipped = true; return 0; }
+            xb = (uint64_t)(uintptr_t)xo2->p;
+        }
         w.in_shared_call[xt] = o->shared; w.in_call[xt] = 1; w.call_steps[xt & 7] = 0; snprintf(w.cur_fn, sizeof w.cur_fn, "%s", x.name);
         w.calls++;
         w.pr_extra++;
         errno = stale_errno(c);
         hw_enter(xt, *o, nullptr);
-        uint64_t xr = x.fn(o->p, c.b, c.c, c.d);
+        uint64_t xr = x.fn(o->p, xb, c.c, c.d);
         hw_leave(xt);
         w.in_call[xt] = 0;
         return xr;
@@ -1045,9 +1065,9 @@ static uint64_t do_call(const Call &c, bool &skipped) {
     }
     if (c.fn == "vss_strarr") {
         int n = (int)c.a;
-        if (n > 8 || (int)c.objs.size() != n || (int)c.objs2.size() != n) { skipped = true; return 0; }
-        char *src[8], *dst[8];
-        uint16_t lens[8];
+        if (n > 48 || (int)c.objs.size() != n || (int)c.objs2.size() != n) { skipped = true; return 0; }
+        char *src[48], *dst[48];
+        uint16_t lens[48];
         size_t total = 0;
         std::vector<int> L = parse_ints(c.field);
         if ((int)L.size() != n) { skipped = true; return 0; }
@@ -1132,9 +1152,17 @@ static Snapshot run_phase(bool interleave) {
     for (size_t t = 0; t < w.prog.size(); t++) {
         w.tasks.spawn(strf("caller%zu", t), [t]() -> int {
             World &w = *W;
+            // every caller has a floating-point control state of its own, as threads have (flush-to-zero, denormals-are-zero, rounding
+            // mode): what a library call saves of it must not come back in another caller
+            const unsigned my_csr = 0x1F80u | ((t & 1) ? 0x8000u : 0) | ((t & 2) ? 0x0040u : 0) | ((t & 4) ? 0x2000u : 0);
+            __builtin_ia32_ldmxcsr(my_csr);
             for (auto &c : w.prog[t]) {
                 bool skipped;
                 uint64_t r = do_call(c, skipped);
+                if ((__builtin_ia32_stmxcsr() & ~0x3Fu) != my_csr)
+                    violation(std::string("shared-state:fp-control:") + w.cur_fn,
+                              strf("task %zu returned from %s with the floating-point control register MXCSR = 0x%04x; it had called with 0x%04x: the call restored a state it "
+                                   "had saved for another caller", t, w.cur_fn, __builtin_ia32_stmxcsr() & ~0x3Fu, my_csr));
                 if (skipped) continue;
                 w.results[t].push_back(r);
                 w.result_fn[t].push_back(c.fn == "get" || c.fn == "set" || c.fn == "init" ? c.fn + "." + c.fmt + (c.field.empty() ? "" : "." + c.field) + (c.via.empty() ? "" : ":" + c.via) : c.fn);
